@@ -14,6 +14,8 @@ strings and numbers (the only objects the units interpret); the normalised tree 
       the iterable) and E is built from names, attributes, subscripts, constants, operators and calls to pure functions
                                                      ->  S[t := E]                  (a temporary for the next statement)
   R7  x = E ; return x                               ->  return E                   (x local)
+  R8  t = None ; if ..: (.. t = E at the end of some branches ..) ; S(t)   with t read only in S
+                                                     ->  the `if` with S[t := E] / S[t := None] at the end of every branch
 
 `canon_text` additionally renames the local variables of a function by order of first binding; the units that compare whole
 function bodies with an expected text compare the canonical texts of both."""
@@ -127,6 +129,37 @@ def _stores(node, name):
     return k
 
 
+def _sink(iff, t, default, use):
+    """R8 helper: a copy of `iff` in which every path ends with `use` instantiated by the value t has on that path; None when t is
+    assigned anywhere but as the last statement of a branch (or inside a loop / try / with)"""
+    def inst(value):
+        u = copy.deepcopy(use)
+        return _Subst(t, value).visit(u)
+
+    def block(stmts):
+        stmts = list(stmts)
+        for x in stmts[:-1]:
+            if _stores(x, t):
+                return None
+        if not stmts:
+            return [inst(default)]
+        last = stmts[-1]
+        if isinstance(last, ast.Assign) and len(last.targets) == 1 and isinstance(last.targets[0], ast.Name) and last.targets[0].id == t:
+            return stmts[:-1] + [inst(last.value)]
+        if isinstance(last, ast.If):
+            b, o = block(last.body), block(last.orelse)
+            if b is None or o is None:
+                return None
+            return stmts[:-1] + [ast.If(test=last.test, body=b, orelse=o)]
+        if _stores(last, t):
+            return None
+        return stmts + [inst(default)]
+    b, o = block(iff.body), block(iff.orelse)
+    if b is None or o is None:
+        return None
+    return ast.If(test=iff.test, body=b, orelse=o)
+
+
 def _inline_in(stmts, func):
     """R5, R6 on one statement list (recursively on nested lists)"""
     out = []
@@ -139,6 +172,20 @@ def _inline_in(stmts, func):
                 and isinstance(s.value, ast.Name) and s.value.id == s.targets[0].id:
             i += 1
             continue
+        # R8: t = None ; if ..: (.. t = E as the last statement of some branches ..) ; S(t)   with t read only in S
+        #     ->  the if with S[t := E] in place of the assignments and S[t := None] at the end of the other branches
+        if isinstance(s, ast.Assign) and len(s.targets) == 1 and isinstance(s.targets[0], ast.Name) and isinstance(s.value, ast.Constant) \
+                and s.value.value is None and i + 2 < len(stmts) and isinstance(stmts[i + 1], ast.If) \
+                and isinstance(stmts[i + 2], (ast.Expr, ast.Return, ast.Assign)):
+            t, iff, use = s.targets[0].id, stmts[i + 1], stmts[i + 2]
+            n_in_if = _stores(iff, t)
+            if n_in_if >= 1 and _stores(func, t) == 1 + n_in_if and _loads(func, t) == _loads(use, t) > 0 and _stores(use, t) == 0:
+                sunk = _sink(iff, t, s.value, use)
+                if sunk is not None:
+                    stmts[i + 1] = sunk
+                    del stmts[i + 2]
+                    i += 1
+                    continue
         # R7: x = E ; return x  ->  return E   (x is a local: dead after the return, however often it was bound before)
         if isinstance(s, ast.Assign) and len(s.targets) == 1 and isinstance(s.targets[0], ast.Name) and i + 1 < len(stmts) \
                 and isinstance(stmts[i + 1], ast.Return) and isinstance(stmts[i + 1].value, ast.Name) \
